@@ -422,3 +422,27 @@ package keeper
 //@   invariant !isUpdate ==> state(ctx) == old(state(ctx))
 //@   invariant traceN() >= old(traceN())
 //@   step[C03.iusa.persist] traceN() == old(traceN()) + 1 && (isUpdate ==> get(ctx, "delegation", cat(urPfx(), res_Value_0)) == res_MustMarshal_0)
+
+// ---------------------------------------------------------------------------------------------
+// C09/C01: delegateTo moves exactly the delegated amount from the staker's withdrawable balance into the operator's
+// pool, or changes nothing. INV(C01/C02) instances used: the pool row is non-negative and has no shares when it has no
+// amount (so the share computation cannot fail after the staker has been debited).
+//@ func (*Keeper).delegateTo
+//@   requires params != nil && !isnil(params.OpAmount) && k.hooks != nil && len(params.OperatorAddress) > 0
+//@   requires pS(ctx, params.OperatorAddress, duAsset(params)) >= 0 && pT(ctx, params.OperatorAddress, duAsset(params)) >= 0 &&
+//@            (pT(ctx, params.OperatorAddress, duAsset(params)) == 0 ==> pS(ctx, params.OperatorAddress, duAsset(params)) == 0) &&
+//@            opSelf(ctx, accstr(params.OperatorAddress), duAsset(params)) >= 0 && opPending(ctx, accstr(params.OperatorAddress), duAsset(params)) >= 0
+//@   requires delShare(ctx, duStaker(params), duAsset(params), accstr(params.OperatorAddress)) >= 0 &&
+//@            delWait(ctx, duStaker(params), duAsset(params), accstr(params.OperatorAddress)) >= 0
+//@   requires stDeposit(ctx, duStaker(params), duAsset(params)) >= 0 && stPending(ctx, duStaker(params), duAsset(params)) >= 0
+//@   flag pure=IsOperatorFrozen,Hooks
+//@   flag havoc=AfterDelegation
+//@   modifies state(ctx), trace
+//@   ensures[C09.dt.atomic] err != nil ==> state(ctx) == old(state(ctx))
+//@   ensures[C01.dt.staker] err == nil && duAsset(params) != g("x/assets/types.ExocoreAssetID") && !notGenesis ==>
+//@        stWithdrawable(ctx, duStaker(params), duAsset(params)) == old(stWithdrawable(ctx, duStaker(params), duAsset(params))) - val(params.OpAmount) &&
+//@        stDeposit(ctx, duStaker(params), duAsset(params)) == old(stDeposit(ctx, duStaker(params), duAsset(params))) &&
+//@        stWithdrawable(ctx, duStaker(params), duAsset(params)) >= 0
+//@   ensures[C01.dt.pool]   err == nil && !notGenesis ==> val(params.OpAmount) > 0 &&
+//@        pT(ctx, params.OperatorAddress, duAsset(params)) == old(pT(ctx, params.OperatorAddress, duAsset(params))) + val(params.OpAmount)
+//@   before[C01.dt.enough]  UpdateStakerAssetState requires val(res_GetStakerSpecifiedAssetInfo_0.WithdrawableAmount) >= val(params.OpAmount) && val(params.OpAmount) > 0
